@@ -308,6 +308,9 @@ func evalCertrt(args []string) string {
 	if p := tamperSweep(der, sigStart, len(der), check, 1); p >= 0 {
 		return "ORACLE-FAIL:tampered-signature-accepted@" + strconv.Itoa(p-sigStart)
 	}
+	if v := reencodedSigAccepted(der, c.Signature, check); v != "" {
+		return "ORACLE-FAIL:reencoded-signature-accepted:" + v
+	}
 	return "ok"
 }
 
@@ -326,13 +329,20 @@ func evalCsrrt(args []string) string {
 	if !ok {
 		return "bad-op"
 	}
-	// the request is signed by the key it certifies; this package only marshals SM2 subject keys
-	if args[0] != "sm2" {
+	// the request is signed by the key it certifies: an SM2 key, or the RSA / P-256 signer of certrt and crlrt
+	// (CreateCertificateRequest marshals all three kinds of subject key)
+	var k crypto.Signer
+	switch args[0] {
+	case "sm2":
+		sk := keyFor(700 + r.intn(5))
+		if r.chance(1, 3) {
+			sk = shortCoordKey(r)
+		}
+		k = sk
+	case "rsa", "ecdsa":
+		k, _, _ = signerOf(args[0])
+	default:
 		return "bad-op"
-	}
-	k := keyFor(700 + r.intn(5))
-	if r.chance(1, 3) {
-		k = shortCoordKey(r)
 	}
 	t := &x509.CertificateRequest{Subject: randName(r), SignatureAlgorithm: alg}
 	if r.chance(1, 2) {
@@ -387,6 +397,9 @@ func evalCsrrt(args []string) string {
 		!reflect.DeepEqual(append([]string{}, t.EmailAddresses...), append([]string{}, c.EmailAddresses...)) || !sameIPs(t.IPAddresses, c.IPAddresses) {
 		return "ORACLE-FAIL:field-differs"
 	}
+	if !samePublicKey(c.PublicKey, k.Public()) {
+		return "ORACLE-FAIL:subject-key"
+	}
 	if err := c.CheckSignature(); err != nil {
 		return "ORACLE-FAIL:verify"
 	}
@@ -401,6 +414,9 @@ func evalCsrrt(args []string) string {
 	sigStart := len(der) - len(c.Signature) - 1
 	if p := tamperSweep(der, sigStart, len(der), check, 1); p >= 0 {
 		return "ORACLE-FAIL:tampered-signature-accepted@" + strconv.Itoa(p-sigStart)
+	}
+	if v := reencodedSigAccepted(der, c.Signature, check); v != "" {
+		return "ORACLE-FAIL:reencoded-signature-accepted:" + v
 	}
 	return "ok"
 }
@@ -464,6 +480,9 @@ func evalCrlrt(args []string) string {
 	sigStart := len(der) - len(crl.SignatureValue.Bytes) - 1
 	if p := tamperSweep(der, sigStart, len(der), check, 1); p >= 0 {
 		return "ORACLE-FAIL:tampered-signature-accepted@" + strconv.Itoa(p-sigStart)
+	}
+	if v := reencodedSigAccepted(der, crl.SignatureValue.Bytes, check); v != "" {
+		return "ORACLE-FAIL:reencoded-signature-accepted:" + v
 	}
 	return "ok"
 }
@@ -586,7 +605,7 @@ func genC09(r *rng, tier string, emit func(string)) {
 	}
 	algos := map[string][]string{
 		"sm2":   {"unset", "SM2WithSM3", "SM2WithSHA1", "SM2WithSHA256", "SHA256WithRSA", "ECDSAWithSHA256", "MD2WithRSA", "DSAWithSHA1"},
-		"rsa":   {"unset", "SHA1WithRSA", "SHA256WithRSA", "SHA384WithRSA", "SHA512WithRSA", "SHA256WithRSAPSS", "SHA384WithRSAPSS", "SM2WithSM3", "ECDSAWithSHA256", "MD2WithRSA"},
+		"rsa":   {"unset", "SHA1WithRSA", "SHA256WithRSA", "SHA384WithRSA", "SHA512WithRSA", "SHA256WithRSAPSS", "SHA384WithRSAPSS", "SHA512WithRSAPSS", "SM2WithSM3", "ECDSAWithSHA256", "MD2WithRSA"},
 		"ecdsa": {"unset", "ECDSAWithSHA1", "ECDSAWithSHA256", "ECDSAWithSHA384", "ECDSAWithSHA512", "SHA256WithRSA"},
 	}
 	for i := 0; i < n; i++ {
@@ -596,12 +615,13 @@ func genC09(r *rng, tier string, emit func(string)) {
 					continue
 				}
 				emit(fmt.Sprintf("certrt %s %s %d", s, a, r.intn(1<<30)))
-				if s == "sm2" {
-					emit(fmt.Sprintf("csrrt %s %s %d", s, a, r.intn(1<<30)))
-				}
+				emit(fmt.Sprintf("csrrt %s %s %d", s, a, r.intn(1<<30)))
 				emit(fmt.Sprintf("crlrt %s %s v2 %d", s, a, r.intn(1<<30)))
 			}
 			emit(fmt.Sprintf("crlrt %s unset legacy %d", s, r.intn(1<<30)))
+		}
+		if i < 3 {
+			emit(fmt.Sprintf("dsasigv %d", r.intn(1<<30)))
 		}
 		for k := 0; k < 4; k++ {
 			emit(fmt.Sprintf("issue2 %d", r.intn(1<<30)))
